@@ -482,6 +482,7 @@ func c19Rewrite(c *Ctx, fn *ssa.Function, label string) {
 }
 
 var c19Canaries = []Canary{
+	{Name: "r5-empty-line-ending-kept", ExpectKey: "C19.R4#track:empty-line-ending", Edits: []Edit{{File: "commands/command_track.go", Find: "\tif len(lineEnd) == 0 {\n\t\tlineEnd = gitLineEnding(cfg.Git)\n\t}\n", Repl: ""}}},
 	{Name: "r4-delete-under-other-key", ExpectKey: "C19.R4#track:replaced", Edits: []Edit{{File: "commands/command_track.go", Find: "delete(changedAttribLines, pattern)", Repl: "delete(changedAttribLines, fields[0])"}}},
 	{Name: "drop-hash-escape", ExpectKey: "C19.R1#escaped(\"#\")", Edits: []Edit{{File: "commands/command_track.go", Find: "		\"#\": \"\\\\#\",\n", Repl: ""}}},
 	{Name: "backslash-last", ExpectKey: "C19.R2#escapeAttrPattern:backslash-first", Edits: []Edit{{File: "commands/command_track.go", Find: "func escapeAttrPattern(s string) string {\n	var escaped string\n	if runtime.GOOS == \"windows\" {\n		escaped = strings.Replace(s, `\\`, \"/\", -1)\n	} else {\n		escaped = strings.Replace(s, `\\`, `\\\\`, -1)\n	}\n\n	for from, to := range trackEscapePatterns {\n		escaped = strings.Replace(escaped, from, to, -1)\n	}\n\n	return escaped", Repl: "func escapeAttrPattern(s string) string {\n	escaped := s\n	for from, to := range trackEscapePatterns {\n		escaped = strings.Replace(escaped, from, to, -1)\n	}\n	if runtime.GOOS == \"windows\" {\n		escaped = strings.Replace(escaped, `\\`, \"/\", -1)\n	} else {\n		escaped = strings.Replace(escaped, `\\`, `\\\\`, -1)\n	}\n\n	return escaped"}}},
